@@ -1,0 +1,16 @@
+#![cfg(all(feature = "builtins", feature = "macros"))]
+use minijinja::{context, Environment, ErrorKind};
+
+fn render(source: &str) -> Result<String, minijinja::Error> {
+    Environment::new().render_str(source, context! {})
+}
+
+#[test]
+fn test_loop_cycle_without_arguments() {
+    let err = render("{% for x in [1, 2] %}{{ loop.cycle() }}{% endfor %}").unwrap_err();
+    assert_eq!(err.kind(), ErrorKind::MissingArgument);
+    assert_eq!(
+        render("{% for x in [1, 2, 3] %}{{ loop.cycle('a', 'b') }}{% endfor %}").unwrap(),
+        "aba"
+    );
+}
